@@ -193,6 +193,10 @@ pub struct LaneCtx {
     pub result: LaneResult,
     pub strict: bool,
     pub only_sub: Option<String>,
+    /// E4 generic mode: generate ONE case of sub-check `only_sub` from the given byte
+    /// string (proptest's pass-through RNG) and judge it; the result is left in `fuzz_out`.
+    pub fuzz_bytes: Option<Vec<u8>>,
+    pub fuzz_out: Option<(Value, Verdict)>,
 }
 
 #[derive(Debug, Clone, Copy, PartialEq, Eq)]
@@ -329,6 +333,23 @@ pub struct SubSpec<C> {
 }
 
 impl LaneCtx {
+    pub fn for_fuzz(prop: &str, sub: &str, bytes: &[u8], known: KnownFindings) -> Self {
+        LaneCtx {
+            prop: prop.to_string(),
+            tier: Tier::Quick,
+            seed: 0,
+            lane: 0,
+            lanes: 1,
+            scale: 1.0,
+            known,
+            result: LaneResult::default(),
+            strict: true,
+            only_sub: Some(sub.to_string()),
+            fuzz_bytes: Some(bytes.to_vec()),
+            fuzz_out: None,
+        }
+    }
+
     pub fn cases_for(&self, cases: (u64, u64)) -> u64 {
         let total = match self.tier {
             Tier::Quick => cases.0,
@@ -439,6 +460,22 @@ impl LaneCtx {
         self.result
             .rule
             .insert(spec.name.to_string(), spec.rule.to_string());
+        if let Some(bytes) = self.fuzz_bytes.clone() {
+            use proptest::strategy::ValueTree;
+            let mut runner = TestRunner::new_with_rng(
+                Config { failure_persistence: None, max_local_rejects: 64, max_global_rejects: 64, ..Config::default() },
+                TestRng::from_seed(RngAlgorithm::PassThrough, &bytes),
+            );
+            if let Ok(tree) = spec.strategy.new_tree(&mut runner) {
+                let case = tree.current();
+                let verdict = match catch(|| f(&case)) {
+                    Ok(v) => v,
+                    Err((loc, msg)) => panic_verdict(&loc, &msg),
+                };
+                self.fuzz_out = Some((serde_json::to_value(&case).unwrap_or(Value::Null), verdict));
+            }
+            return;
+        }
         let n = self.cases_for(spec.cases);
         if n == 0 {
             return;
@@ -535,7 +572,7 @@ impl LaneCtx {
     ) where
         C: std::fmt::Debug + Clone + Serialize + DeserializeOwned + 'static,
     {
-        if !self.wants(name) {
+        if !self.wants(name) || self.fuzz_bytes.is_some() {
             return;
         }
         self.result.rule.insert(name.to_string(), rule.to_string());
